@@ -4,6 +4,7 @@
 # 2. applies it to /repo, runs the given checks, reverts it
 # prints one line per step; exit 0 always (this is a lab tool, not a check)
 D=$(cd "$1" && pwd); TIER=$2; shift 2
+REPO=${VERIF_REPO:-/repo}; VROOT=${VERIF_ROOT:-/verif}
 W=/tmp/seedeval-wt-$$
 export CARGO_TARGET_DIR=/tmp/seedeval-target
 export CARGO_NET_OFFLINE=true
@@ -20,13 +21,13 @@ if [ -z "${SKIP_CONFIRM:-}" ]; then
   if cargo test --offline -p $DEMO_PKG $DEMO_FEATURES --test demo_seed >/tmp/seedeval-demo2.log 2>&1; then echo "SEED demo_passes_without_change=true"; else echo "SEED demo_passes_without_change=FALSE (see /tmp/seedeval-demo2.log)"; fi
   cd /; git -C /repo worktree remove --force "$W"
 fi
-cd /verif
-if ! git -C /repo apply "$D/patch.diff"; then echo "SEED patch does not apply to /repo"; exit 0; fi
+cd "$VROOT"
+if ! git -C "$REPO" apply "$D/patch.diff"; then echo "SEED patch does not apply to /repo"; exit 0; fi
 for P in "$@"; do
   bin/check $P $TIER >/tmp/seedeval-check-$P.log 2>&1; rc=$?
   n=$(grep -c '^VIOLATION' /tmp/seedeval-check-$P.log)
   echo "SEED check $P $TIER exit=$rc violations=$n"
   grep -A1 '^VIOLATION' /tmp/seedeval-check-$P.log | grep -v '^VIOLATION' | grep -v '^--' | cut -c1-260 | head -4
 done
-git -C /repo checkout -- .
-git -C /repo status --short | head -3
+git -C "$REPO" checkout -- .
+git -C "$REPO" status --short | head -3
